@@ -530,6 +530,11 @@ func (m *Machine) call(caller *frame, site ssa.Instruction, fn value, args []val
 	switch fn := fn.(type) {
 	case *ssa.Function:
 		if fn == nil {
+			if ci, ok := site.(ssa.CallInstruction); ok && m.lenient {
+				// package initialisation calling a function variable of a
+				// package that has no source here
+				return m.externalResult(ci.Common().Signature(), "nil function variable", false)
+			}
 			m.panicRuntime("invalid memory address or nil pointer dereference (call of nil func)")
 		}
 		return m.callSSA(caller, site, fn, args, nil)
